@@ -105,6 +105,8 @@ type RunningStep interface {
 	// stage based on the input, otherwise race conditions may happen.
 	ProvideStageInput(stage string, input map[string]any) error
 	// CurrentStage returns the stage the step provider is currently in, no matter if it is finished or not.
+	// A step enters a stage before it reports the change to its StageChangeHandler. The workflow compares the
+	// two to tell if a report is still on its way, so this must match the reported stage once it has arrived.
 	CurrentStage() string
 	// State returns information about the current step.
 	State() RunningStepState
